@@ -15,6 +15,7 @@ import (
 	"fmt"
 	"io/ioutil"
 	"os"
+	"os/exec"
 	"path/filepath"
 	"sort"
 	"strings"
@@ -795,7 +796,7 @@ func runHistory(h *History, res *vf.Result, seed uint64) (string, []hit) {
 	r := &runner{h: h, secure: h.Secure, ref: map[string][]byte{}, m: newMemo(), res: res}
 	r.diskdb = youdb.NewMemDatabase()
 	r.triedb = trie.NewDatabase(r.diskdb)
-	rng := vf.NewRng(seed ^ 0xabcdef)
+	rng := vf.NewRng(mixSeed(seed ^ 0xabcdef))
 	func() {
 		defer func() {
 			if e := recover(); e != nil {
@@ -814,7 +815,7 @@ func runHistory(h *History, res *vf.Result, seed uint64) (string, []hit) {
 	for _, d := range r.m.order {
 		tab = append(tab, "("+bl([]byte(d))+","+bl(r.m.pairs[d])+")")
 	}
-	return fmt.Sprintf("mkCase %s [%s] [%s]", vf.Bool(h.Secure), strings.Join(tab, ";"), strings.Join(r.ops, ";\n  ")), r.hits
+	return fmt.Sprintf("mkCase %s [%s] [%s] []", vf.Bool(h.Secure), strings.Join(tab, ";"), strings.Join(r.ops, ";\n  ")), r.hits
 }
 
 // ---- generators -------------------------------------------------------------
@@ -969,6 +970,18 @@ func genHistory(rng *vf.Rng) History {
 			}
 			if rng.Chance(60) {
 				h.Steps = append(h.Steps, Step{Kind: "reopen"})
+				// work on the lazily loaded trie: deletes that collapse branches onto unloaded children
+				if rng.Chance(70) {
+					m := 1 + rng.Intn(4)
+					for j := 0; j < m; j++ {
+						if rng.Chance(75) {
+							h.Steps = append(h.Steps, Step{Kind: "delete", K: key()})
+						} else {
+							h.Steps = append(h.Steps, Step{Kind: "update", K: key(), V: genValue(rng)})
+						}
+					}
+					h.Steps = append(h.Steps, Step{Kind: "hash"})
+				}
 			}
 		case x < 98:
 			var items []hexb
@@ -1008,55 +1021,148 @@ func loadCorpus(dir string) []History {
 	return out
 }
 
+// execOut is what running one history yields.
+type execOut struct {
+	Case string         `json:"case"`
+	Hits []hit          `json:"hits"`
+	Dist map[string]int `json:"dist"`
+}
+
+type job struct {
+	H    History `json:"h"`
+	Seed uint64  `json:"seed"`
+}
+
+func execOne(j job) execOut {
+	res := vf.NewResult("C13", j.Seed)
+	var c string
+	var hits []hit
+	if j.H.Kind == "gc" {
+		c, hits = runGc(&j.H, res)
+	} else {
+		c, hits = runHistory(&j.H, res, j.Seed)
+	}
+	return execOut{Case: c, Hits: hits, Dist: res.Distribution}
+}
+
+// execWorker runs jobs[from:to] of a job file in this process (a fatal runtime
+// error of the implementation - stack overflow, concurrent map access - kills
+// only this worker).
+func execWorker(in string, from, to int, out string) {
+	b, err := ioutil.ReadFile(in)
+	if err != nil {
+		fmt.Println(err)
+		os.Exit(2)
+	}
+	var jobs []job
+	if err := json.Unmarshal(b, &jobs); err != nil {
+		fmt.Println(err)
+		os.Exit(2)
+	}
+	var outs []execOut
+	for _, j := range jobs[from:to] {
+		outs = append(outs, execOne(j))
+	}
+	ob, _ := json.Marshal(outs)
+	vf.WriteFile(out, string(ob))
+}
+
+// runJobs executes jobs[from:to] in a child process; on a crash the range is
+// bisected until the crashing history is isolated.
+func runJobs(self, jobFile string, jobs []job, from, to int, tmp string) []execOut {
+	if from >= to {
+		return nil
+	}
+	out := filepath.Join(tmp, fmt.Sprintf("part_%d_%d.json", from, to))
+	cmd := exec.Command(self, "exec", "-file", jobFile, "-from", fmt.Sprint(from), "-to", fmt.Sprint(to), "-out", out)
+	var stderr bytes.Buffer
+	cmd.Stderr = &stderr
+	cmd.Stdout = &stderr
+	err := cmd.Run()
+	if err == nil {
+		if b, e := ioutil.ReadFile(out); e == nil {
+			var outs []execOut
+			if json.Unmarshal(b, &outs) == nil && len(outs) == to-from {
+				os.Remove(out)
+				return outs
+			}
+		}
+	}
+	if to-from == 1 {
+		msg := stderr.String()
+		if len(msg) > 600 {
+			msg = msg[:600]
+		}
+		return []execOut{{Case: "mkCase false [] [] []", Dist: map[string]int{"oracle:the implementation crashed": 1},
+			Hits: []hit{{What: "the implementation crashed (fatal runtime error)", Detail: msg, History: jobs[from].H}}}}
+	}
+	mid := (from + to) / 2
+	return append(runJobs(self, jobFile, jobs, from, mid, tmp), runJobs(self, jobFile, jobs, mid, to, tmp)...)
+}
+
+// mixSeed decorrelates consecutive seeds (vf.Rng streams of seeds s and s+k are
+// the same stream shifted by k steps).
+func mixSeed(x uint64) uint64 {
+	x ^= x >> 30
+	x *= 0xBF58476D1CE4E5B9
+	x ^= x >> 27
+	x *= 0x94D049BB133111EB
+	x ^= x >> 31
+	return x
+}
+
 func gen(seed uint64, n int, outDir, corpusDir string) {
-	rng := vf.NewRng(seed)
+	rng := vf.NewRng(mixSeed(seed + 0x5bd1e995))
 	res := vf.NewResult("C13", seed)
-	var cases []string
-	distinct := map[string]bool{}
-	run := func(h History) {
-		var c string
-		var hits []hit
-		if h.Kind == "gc" {
-			c, hits = runGc(&h, res)
+	var jobs []job
+	for _, h := range loadCorpus(corpusDir) {
+		res.Count("corpus")
+		jobs = append(jobs, job{h, seed + uint64(len(jobs))})
+	}
+	for len(jobs) < n {
+		if rng.Chance(22) {
+			res.Count("history:gc")
+			jobs = append(jobs, job{genGc(rng), seed + uint64(len(jobs))})
 		} else {
-			c, hits = runHistory(&h, res, seed+uint64(len(cases)))
+			res.Count("history:trie")
+			jobs = append(jobs, job{genHistory(rng), seed + uint64(len(jobs))})
 		}
-		cases = append(cases, c)
+	}
+	jb, _ := json.Marshal(jobs)
+	jobFile := filepath.Join(outDir, "jobs.json")
+	vf.WriteFile(jobFile, string(jb))
+	self, err := os.Executable()
+	if err != nil {
+		self = os.Args[0]
+	}
+	outs := runJobs(self, jobFile, jobs, 0, len(jobs), outDir)
+	os.Remove(jobFile)
+	distinct := map[string]bool{}
+	var sb strings.Builder
+	sb.WriteString("From VF.C13 Require Import Model.\nFrom Coq Require Import Uint63.\nLocal Open Scope uint63_scope.\nDefinition cases : list case := [\n")
+	for i, o := range outs {
+		if i > 0 {
+			sb.WriteString(";\n")
+		}
+		sb.WriteString(o.Case)
+		h := jobs[i].H
 		if len(h.Steps)+len(h.Gc) > 2 {
-			distinct[c] = true
+			distinct[o.Case] = true
 		}
-		for _, x := range hits {
+		for _, x := range o.Hits {
 			res.OracleHits = append(res.OracleHits, x)
+		}
+		for k, v := range o.Dist {
+			res.Distribution[k] += v
 		}
 		res.CaseDescs = append(res.CaseDescs, h)
 		if len(res.Samples) < 4 && len(h.Steps)+len(h.Gc) < 12 {
 			res.Samples = append(res.Samples, h)
 		}
 	}
-	for _, h := range loadCorpus(corpusDir) {
-		res.Count("corpus")
-		run(h)
-	}
-	for len(cases) < n {
-		if rng.Chance(22) {
-			res.Count("history:gc")
-			run(genGc(rng))
-		} else {
-			res.Count("history:trie")
-			run(genHistory(rng))
-		}
-	}
-	var sb strings.Builder
-	sb.WriteString("From VF.C13 Require Import Model.\nFrom Coq Require Import Uint63.\nLocal Open Scope uint63_scope.\nDefinition cases : list case := [\n")
-	for i, c := range cases {
-		if i > 0 {
-			sb.WriteString(";\n")
-		}
-		sb.WriteString(c)
-	}
 	sb.WriteString("].\nDefinition M := Eval vm_compute in mismatches cases.\nPrint M.\n")
 	vf.WriteFile(filepath.Join(outDir, "Cases.v"), sb.String())
-	res.Cases = len(cases)
+	res.Cases = len(outs)
 	res.Distinct = len(distinct)
 	res.Rule = "a case is one history: either a trie history (update/delete/get/hash/iterate/node-iterate(+seek)/prove+verify/tampered verify/lying-db verify/commit/db-commit/reopen/DeriveSha/Keccak steps over a key pool with shared prefixes, prefix chains, the empty key, 32-byte keys, values of 0,1,31-33,54-57,60-200 bytes; plain or secure trie; cache limit 0-2) or a database schedule (several tries committed into one Database, Reference/Dereference/Cap/Commit, every live root re-read after each step); every observation of the implementation is compared with the model inside Coq; distinct by full text, non-trivial = more than 2 steps"
 	res.Write(filepath.Join(outDir, "result.json"))
@@ -1103,12 +1209,16 @@ func main() {
 	out := flag.String("out", ".", "")
 	corpus := flag.String("corpus", "/verif/corpus/C13", "")
 	file := flag.String("file", "", "")
+	from := flag.Int("from", 0, "")
+	to := flag.Int("to", 0, "")
 	flag.Parse()
 	switch mode {
 	case "gen":
 		gen(*seed, *n, *out, *corpus)
 	case "replay":
 		replay(*file)
+	case "exec":
+		execWorker(*file, *from, *to, *out)
 	default:
 		fmt.Println("usage: c13 gen|replay")
 		os.Exit(2)
